@@ -55,7 +55,27 @@ def observe(net, L1, L2):
             put(name, getattr(net, name)(list(L1)), n1, n1)
         except Exception as ex:
             o["x"][name] = type(ex).__name__
+    # link-weighted variants: attribute "c" = lengths 1 / 2 fixed by the node numbers (Defs_Network!RootMat)
+    _set_lengths(net)
+    for name, lists in (("cross_path_lengths", (L1, L2)), ("internal_path_lengths", (L1,)),
+                        ("cross_average_path_length", (L1, L2)), ("internal_average_path_length", (L1,)),
+                        ("cross_closeness", (L1, L2)), ("internal_closeness", (L1,)),
+                        ("local_efficiency", (L1, L2)), ("cross_outdegree", (L1, L2))):
+        try:
+            put(name + "(c)", getattr(net, name)(*[list(l) for l in lists], link_attribute="c"),
+                n1, n2 if len(lists) == 2 else n1)
+        except Exception as ex:
+            o["x"][name + "(c)"] = type(ex).__name__
     return o
+
+
+def _set_lengths(net):
+    if "c" in net.graph.es.attributes():
+        return
+    n = net.N
+    i, j = np.indices((n, n)) + 1
+    root = ((i + 2 * j + (i * j) // 2) % 2) + 1 if net.directed else ((i * j + (i + j) // 2) % 2) + 1
+    net.set_link_attribute("c", (root * np.asarray(net.adjacency)).astype(float))
 
 
 def run_case(c):
@@ -148,6 +168,13 @@ def run_ccn(c):
     pair("v", "cross_local_clustering", net.cross_local_clustering)
     pair("v", "cross_closeness", net.cross_closeness)
     pair("v", "internal_closeness", net.internal_closeness)
+    _set_lengths(net)
+    put(obs, "m", "cross_path_lengths(c)", lambda: net.cross_path_lengths("c"))
+    for o in (obs, swap):
+        put(o, "s", "cross_average_path_length(c)", lambda: net.cross_average_path_length("c"))
+    pair("s", "internal_average_path_length(c)", lambda: net.internal_average_path_length("c"))
+    pair("v", "cross_closeness(c)", lambda: net.cross_closeness("c"))
+    pair("v", "internal_closeness(c)", lambda: net.internal_closeness("c"))
     put(obs, "nodes", "cross_betweenness", lambda: np.concatenate(net.cross_betweenness()))
     put(obs, "nodes", "internal_betweenness", lambda: np.concatenate(net.internal_betweenness_1()))
     put(swap, "nodes", "internal_betweenness", lambda: np.concatenate(net.internal_betweenness_2()))
